@@ -142,6 +142,8 @@ type behaviour struct {
 	split      bool // tcp: write the reply in two segments
 	tc         bool // set TC in the reply
 	garbage    bool // reply with undecodable bytes
+	hdronly    bool // udp: the (truncated) reply is the header alone, no question
+	short      bool // tcp: the reply frame's body is shorter than a DNS header (1..11 octets)
 	rcode      int
 	partial    bool // tcp: send half a frame then stall
 	closeAfter bool // tcp: close the connection right after the reply (stale pooled connection)
@@ -273,6 +275,12 @@ func (s *server) serveUDP() {
 				w = w[:len(w)-3]
 				w[5] = 9 // lie about the question count
 			}
+			if bb.hdronly && bb.tc { // header only: ID, flags (TC set), all counts zero
+				w = append([]byte(nil), w[:12]...)
+				for i := 4; i < 12; i++ {
+					w[i] = 0
+				}
+			}
 			s.emit("srv.send", "proto", "udp", "conn", cidOfAddr(laddr), "qid", int(qid), "tok", int(tok), "ex", ex, "tc", bb.tc, "garbage", bb.garbage)
 			s.uc.WriteToUDP(w, ra)
 			if bb.dup {
@@ -342,12 +350,15 @@ func (s *server) handleTCP(c net.Conn) {
 				w = w[:len(w)-3]
 				w[5] = 9
 			}
+			if bb.short {
+				w = w[:1+int(tok)%11]
+			}
 			f := make([]byte, 2+len(w))
 			binary.BigEndian.PutUint16(f, uint16(len(w)))
 			copy(f[2:], w)
 			wm.Lock()
 			defer wm.Unlock()
-			s.emit("srv.send", "proto", "tcp", "conn", cidOfAddr(laddr), "qid", int(qid), "tok", int(tok), "ex", ex, "tc", bb.tc, "garbage", bb.garbage)
+			s.emit("srv.send", "proto", "tcp", "conn", cidOfAddr(laddr), "qid", int(qid), "tok", int(tok), "ex", ex, "tc", bb.tc, "garbage", bb.garbage || bb.short)
 			if bb.partial {
 				c.Write(f[:len(f)/2])
 				return
